@@ -534,8 +534,55 @@ def job_history_mixed(cfg):
     return res
 
 
+def job_float_probe(cfg):
+    """CONCRETE probe, not a solver claim: the symbolic jobs decide the splits in real-number semantics; the closed forms of the eigen-decomposition
+    can lose everything to cancellation in floats when the two principal values agree to a few ulps (a state finite-element strains reach under
+    equibiaxial loading).  The real float code is run on such states and must stay finite and keep the partition."""
+    from EasyFEA import Models
+    from EasyFEA.FEM import FeArray
+
+    res = JobResult(cfg)
+    new_context()
+    split, matk = cfg["split"], cfg["material"]
+    key = f"float probe, split {split} ({matk}): nearly equal principal values"
+    res.functions |= {"PhaseField.Calc_Sigma_e_pg", "PhaseField.Calc_psi_e_pg", "PhaseField._Eigen_values_vectors_projectors"}
+    mat = make_material(matk)
+    pfm = Models.PhaseField(mat, split, "AT2", Gc=1.0, l0=0.1)
+    C = np.asarray(mat.C, dtype=float)
+    r2 = np.sqrt(2.0)
+    states = []
+    for e0 in (1e-3, 0.37, -2.5e-2):
+        for k in (1, -1, 2, -2, 3, -3, 5, -5, 8, 16, -16, 64):
+            e1 = e0 * (1.0 + k * 2.0 ** -52)
+            for th in (0.0, 0.3, 0.7, 1.1, 2.0):
+                cs, sn = np.cos(th), np.sin(th)
+                R = np.array([[cs, -sn], [sn, cs]])
+                E = R @ np.diag([e0, e1]) @ R.T
+                states.append([E[0, 0], E[1, 1], r2 * E[0, 1]])
+    eps = FeArray.asfearray(np.array(states, dtype=float).reshape(1, -1, 3))
+    with np.errstate(all="ignore"):
+        sp, sm = pfm.Calc_Sigma_e_pg(eps)
+        pp_, pm_ = pfm.Calc_psi_e_pg(eps)
+    sp, sm, pp_, pm_ = (np.asarray(x, dtype=float) for x in (sp, sm, pp_, pm_))
+    ev = np.asarray(eps, dtype=float)[0]
+    sig = ev @ C.T
+    psi = 0.5 * np.einsum("pi,pi->p", ev, sig)
+    finite = bool(np.isfinite(sp).all() and np.isfinite(sm).all() and np.isfinite(pp_).all() and np.isfinite(pm_).all())
+    scale = float(np.abs(sig).max())
+    err_s = float(np.nanmax(np.abs((sp + sm)[0] - sig))) / scale if finite else float("inf")
+    err_p = float(np.nanmax(np.abs((pp_ + pm_)[0] - psi))) / max(float(np.abs(psi).max()), 1e-300) if finite else float("inf")
+    nbad = int((~np.isfinite(sp).all(-1) | ~np.isfinite(sm).all(-1)).sum())
+    info = {"states": len(states), "states_with_non_finite_stress": nbad, "relative_error_stress_partition": err_s, "relative_error_energy_partition": err_p}
+    ok = finite and err_s < 1e-9 and err_p < 1e-9
+    res.record(f"{key}: finite and partitioned at {len(states)} float states", Outcome("held", how="ground-exact") if ok else Outcome("cex", env={}, how="structure", detail=str(info)), lambda env: ((not ok), info),
+               key=f"float probe {split} {matk}", sample={"obligation": f"{key}: sigma+/-, psi+/- finite, sigma+ + sigma- = C eps, psi+ + psi- = 1/2 eps.C.eps to 1e-9 (relative) at {len(states)} concrete states - a probe, no quantifier"})
+    res.twin(f"{key} twin", True)
+    res.paths = 1
+    return res
+
+
 def job(cfg):
-    return {"split": job_split, "regu": job_regularisation, "history": job_history, "history_mixed": job_history_mixed}[cfg["kind"]](cfg)
+    return {"split": job_split, "regu": job_regularisation, "history": job_history, "history_mixed": job_history_mixed, "float_probe": job_float_probe}[cfg["kind"]](cfg)
 
 
 def main():
@@ -559,6 +606,11 @@ def main():
     # region enumeration of three successive states within reach (Amor / Miehe: more than 40 regions, cover not closed in the budget)
     configs.append({"kind": "history", "split": "Bourdin"})
     configs.append({"kind": "history", "split": "Bourdin", "reads": True})
+    for split in ISO_SPLITS:
+        for m in (["iso-strain"] if tier == "quick" else ["iso-strain", "iso-stress"]):
+            configs.append({"kind": "float_probe", "split": split, "material": m})
+    for split in (ANISO_SPLITS if tier == "thorough" else ANISO_SPLITS[:4]):
+        configs.append({"kind": "float_probe", "split": split, "material": "aniso"})
     configs.append({"kind": "history_mixed"})
     results = harness.run_jobs(job, configs)
     harness.finish(
